@@ -9,6 +9,7 @@
 #include <string>
 #include <unordered_map>
 #include <vector>
+#include <memory>
 
 #include <ipr/impl>
 
@@ -419,37 +420,61 @@ namespace {
 
    const char* mode_name[] = { "ascending addresses", "descending addresses", "alternating addresses", "malloc" };
 
-   struct Cur { const std::vector<int>* h = nullptr; int mode = 0; int breadth = 0; } cur;
+   struct Cur { const std::vector<int>* h = nullptr; int mode = 0; int breadth = 0; int twin = 0; } cur;
    void describe_current(char* buf, std::size_t n)
    {
-      std::size_t used = std::snprintf(buf, n, "\"pass\":\"C01\",\"mode\":%d,\"breadth\":%d,\"ops\":[", cur.mode, cur.breadth);
+      std::size_t used = std::snprintf(buf, n, "\"pass\":\"C01\",\"mode\":%d,\"breadth\":%d,\"twin\":%d,\"ops\":[", cur.mode, cur.breadth, cur.twin);
       if (cur.h) for (std::size_t i = 0; i < cur.h->size() and used + 16 < n; ++i) used += std::snprintf(buf + used, n - used, "%s%d", i ? "," : "", (*cur.h)[i]);
       std::snprintf(buf + used, n - used, "]");
    }
 
    // A history is a list of indices into the alphabet available at each step.
    // Returns the size of the alphabet after the last step (for the enumerator), or -1 when the history failed.
-   int run(const std::vector<int>& h, int mode, int breadth, bool leaf)
+   // twin: 0 = one Lexicon; 1 = a second Lexicon is kept alive and performs every request right after the first one (each against
+   // its own model); 2 = after every step a third Lexicon is created, performs the history so far, and is destroyed.
+   const char* const twin_name[] = { "one Lexicon", "two Lexicons in lockstep", "a transient Lexicon after every step" };
+   int run(const std::vector<int>& h, int mode, int breadth, bool leaf, int twin = 0)
    {
       using vf::env::Alloc;
-      cur = { &h, mode, breadth };
+      cur = { &h, mode, breadth, twin };
       const Alloc modes[] = { Alloc::Ascending, Alloc::Descending, Alloc::Alternating, Alloc::Malloc };
       vf::env::set_alloc(modes[mode]);
       int next = -1;
       {
          World w;
+         std::unique_ptr<World> second;
+         if (twin == 1) second = std::make_unique<World>();
+         std::string where;
+         auto other_failed = [&](World& o, const char* who) {
+            if (not o.failed or w.failed) return;
+            w.failed = true; w.fail_key = o.fail_key; w.fail_what = o.fail_what; w.trace = o.trace; where = who;
+         };
          bool ok = not w.failed;
          for (std::size_t i = 0; i < h.size() and ok; ++i) {
             auto a = alphabet(w, breadth);
             if (h[i] >= int(a.size())) { ok = false; w.fail("C01:harness:alphabet-index", "replay index out of range"); break; }
             ok = w.apply(a[h[i]]);
             if (leaf) rep.count("states");
+            if (ok and second) {
+               auto b = alphabet(*second, breadth);
+               if (h[i] < int(b.size())) { second->apply(b[h[i]]); rep.count("transitions"); }
+               other_failed(*second, " [observed on the second of two Lexicons performing the same requests in lockstep]");
+               ok = not w.failed;
+            }
+            if (ok and twin == 2) {
+               World t;
+               for (std::size_t j = 0; j <= i and not t.failed; ++j) { auto b = alphabet(t, breadth); if (h[j] >= int(b.size())) break; t.apply(b[h[j]]); rep.count("transitions"); }
+               other_failed(t, " [observed on a transient Lexicon that repeated the history so far]");
+               ok = not w.failed;
+            }
          }
          if (ok and leaf) w.reissue_all();
+         if (ok and leaf and second) { second->reissue_all(); other_failed(*second, " [observed on the second of two Lexicons performing the same requests in lockstep]"); }
+         if (w.failed and not where.empty()) w.fail_what += where;
          if (w.failed) {
             std::vector<long long> ops(h.begin(), h.end());
             rep.violation(w.fail_key, static_cast<long long>(h.size()) * 10 + mode, w.fail_what + " [" + mode_name[mode] + "; " + w.trace + "]",
-                          vf::JObj{}.str("pass", "C01").num("mode", mode).num("breadth", breadth).raw("ops", vf::jarr(ops)).str("trace", w.trace).done());
+                          vf::JObj{}.str("pass", "C01").num("mode", mode).num("breadth", breadth).num("twin", twin).raw("ops", vf::jarr(ops)).str("trace", w.trace).done());
             if (verbose) std::printf("  VIOLATION %s: %s\n    trace: %s\n", w.fail_key.c_str(), w.fail_what.c_str(), w.trace.c_str());
          }
          else {
@@ -471,31 +496,31 @@ namespace {
    // Depth-first enumeration of all histories of length exactly `depth`; the alphabet of step i+1 depends on the
    // prefix, so prefixes are executed once to learn its size (and are themselves checked), leaves are executed in full.
    long long leaves = 0;
-   void dfs(std::vector<int>& h, int depth, int mode, int breadth, int width, long long& counter)
+   void dfs(std::vector<int>& h, int depth, int mode, int breadth, int width, long long& counter, int twin = 0)
    {
       if (opt.expired()) return;
       for (int c = 0; c < width; ++c) {
          h.push_back(c);
          if (int(h.size()) == depth) {
-            if (opt.mine(counter++)) { run(h, mode, breadth, true); ++leaves; }
+            if (opt.mine(counter++)) { run(h, mode, breadth, true, twin); ++leaves; }
          }
          else {
             int w2 = run(h, mode, breadth, false);
-            if (w2 > 0) dfs(h, depth, mode, breadth, w2, counter);
+            if (w2 > 0) dfs(h, depth, mode, breadth, w2, counter, twin);
          }
          h.pop_back();
          if (opt.expired()) return;
       }
    }
 
-   void explore(int depth, int breadth, const std::vector<int>& modes)
+   void explore(int depth, int breadth, const std::vector<int>& modes, int twin = 0)
    {
       for (int mode : modes) {
          for (int d = 1; d <= depth; ++d) {
             std::vector<int> h;
             long long counter = 0;
             int w0 = run(h, mode, breadth, false);
-            dfs(h, d, mode, breadth, w0, counter);
+            dfs(h, d, mode, breadth, w0, counter, twin);
             if (opt.expired()) { rep.cap("deadline: breadth " + std::to_string(breadth) + " depth " + std::to_string(d) + " mode " + mode_name[mode]); return; }
             if (opt.shard == 0) rep.member("completed", "breadth=" + std::to_string(breadth) + " depth=" + std::to_string(d) + " " + mode_name[mode]);
          }
@@ -600,7 +625,7 @@ int main(int argc, char** argv)
       long long lng = vf::json_int(text, "long");
       std::printf("replay C01: %zu steps, %s, breadth %d\n", ops.size(), mode_name[mode], breadth);
       if (lng > 0) long_history(mode, int(lng), int(vf::json_int(text, "ins_order")));
-      else run(std::vector<int>(ops.begin(), ops.end()), mode, breadth, true);
+      else run(std::vector<int>(ops.begin(), ops.end()), mode, breadth, true, int(vf::json_int(text, "twin")));
       for (auto& [k, v] : rep.viols) std::printf("violated: %s  (%s)\n", k.c_str(), v.what.c_str());
       return rep.viols.empty() ? 0 : 1;
    }
@@ -608,6 +633,9 @@ int main(int argc, char** argv)
    // 0 deviations (ascending addresses) first, then each single deviation.
    explore(deep ? 3 : 2, 1, { 0, 1, 2 });
    explore(deep ? 4 : 3, 0, { 0, 1, 2 });
+   // more than one Lexicon: the compact alphabet again, with a second Lexicon in lockstep, and with a transient one after every step
+   explore(deep ? 3 : 2, 0, { 3, 0 }, 1);
+   explore(deep ? 3 : 2, 0, { 3, 0 }, 2);
    if (not opt.expired()) {
       int job = 0;
       for (int mode : { 0, 1, 2, 3 })
